@@ -8,33 +8,42 @@
 (* TLC explores every chain of <= MaxLen tokens over an alphabet that has every option combination of the real      *)
 (* tables (ALLOW_EMPTY, MATCH_LENGTH, PRUNE_MATCH, an opener shared by two closers, ambidextrous types).            *)
 EXTENDS Integers, Sequences, FiniteSets, TLC, Json
-CONSTANTS MaxLen,      \* chains of 1 .. MaxLen tokens
+CONSTANTS Table,       \* the engine's pairing registrations (cfg: Table <- SynTable, or a real engine's)
+          MaxLen,      \* chains of 1 .. MaxLen tokens
           Thr,         \* kLargeStackThreshold (1000 in token_pairs.h; 0 in the exhaustive configuration so that the shortcut is always taken)
           Sim
 
-\* ---- the pairing table of the model engine (token type numbers are those the replay harness registers) -------------
+\* ---- the pairing table -----------------------------------------------------------------------------------------------------
+\* Table: what token_pair_engine_add_pairing() was called with, in order: <<opener type, closer type, pair type, options>> (options: 1 = ALLOW_EMPTY,
+\* 2 = MATCH_LENGTH, 4 = PRUNE_MATCH).  Types: the token types the table mentions plus Plain, a type it does not mention.
+\* The synthetic table below has every option combination; TokenPairsReal substitutes the tables of a real engine (extracted from the running library).
 TA == 11  Ta == 12  Tb == 13  Tq == 14  TS == 15  Tx == 16          \* A opener; a, b closers of A; q, S ambidextrous; x plain
-PAa == 21  PAb == 22  Pqq == 23  PSS == 24
-PairType(o, c) == CASE o = TA /\ c = Ta -> PAa [] o = TA /\ c = Tb -> PAb [] o = Tq /\ c = Tq -> Pqq [] o = TS /\ c = TS -> PSS [] OTHER -> 0
-EmptyAllowed(p) == p = PAa
-MatchLen(p) == p = Pqq
-ShouldPrune(p) == p \in {PAa, PAb, Pqq}
-CanOpenPair(t) == t \in {TA, Tq, TS}
-CanClosePair(t) == t \in {Ta, Tb, Tq, TS}
-Pairings == << [o |-> TA, c |-> Ta, p |-> PAa, opt |-> 5], [o |-> TA, c |-> Tb, p |-> PAb, opt |-> 4], [o |-> Tq, c |-> Tq, p |-> Pqq, opt |-> 6], [o |-> TS, c |-> TS, p |-> PSS, opt |-> 0] >>
-
+SynTable == << <<TA, Ta, 21, 5>>, <<TA, Tb, 22, 4>>, <<Tq, Tq, 23, 6>>, <<TS, TS, 24, 0>> >>
+Bit(n, b) == (n \div b) % 2 = 1
+\* e->pair_type[o][c]: the last registration wins; the option flags of a pair type are sticky (set by any registration that carries them)
+PairType(o, c) == LET hits == {i \in 1 .. Len(Table) : Table[i][1] = o /\ Table[i][2] = c} IN
+                  IF hits = {} THEN 0 ELSE Table[CHOOSE i \in hits : \A k \in hits : k <= i][3]
+EmptyAllowed(p) == \E i \in 1 .. Len(Table) : Table[i][3] = p /\ Bit(Table[i][4], 1)
+MatchLen(p) == \E i \in 1 .. Len(Table) : Table[i][3] = p /\ Bit(Table[i][4], 2)
+ShouldPrune(p) == \E i \in 1 .. Len(Table) : Table[i][3] = p /\ Bit(Table[i][4], 4)
+CanOpenPair(t) == \E i \in 1 .. Len(Table) : Table[i][1] = t
+CanClosePair(t) == \E i \in 1 .. Len(Table) : Table[i][2] = t
+Openers == {Table[i][1] : i \in 1 .. Len(Table)}
+Closers == {Table[i][2] : i \in 1 .. Len(Table)}
+Plain == 16
+Types == Openers \cup Closers \cup {Plain}
+\* types for which the length matters (some MATCH_LENGTH pair involves them) come in two lengths
+LenMatters(t) == \E i \in 1 .. Len(Table) : (Table[i][1] = t \/ Table[i][2] = t) /\ MatchLen(Table[i][3])
 Tok(ty, len, adj, co, cc) == [ty |-> ty, len |-> len, adj |-> adj, co |-> co, cc |-> cc]
-TokVariants == {Tok(TA, 1, a, TRUE, FALSE) : a \in BOOLEAN} \cup {Tok(Ta, 1, a, FALSE, TRUE) : a \in BOOLEAN} \cup {Tok(Tb, 1, a, FALSE, TRUE) : a \in BOOLEAN}
-               \cup {Tok(Tq, l, a, f[1], f[2]) : l \in {1, 2}, a \in BOOLEAN, f \in {<<TRUE, TRUE>>, <<TRUE, FALSE>>, <<FALSE, TRUE>>}}
-               \cup {Tok(TS, 1, a, f[1], f[2]) : a \in BOOLEAN, f \in {<<TRUE, TRUE>>, <<TRUE, FALSE>>, <<FALSE, TRUE>>}}
-               \cup {Tok(Tx, 1, TRUE, FALSE, FALSE)}
+FlagsOf(t) == IF t \in Openers /\ t \in Closers THEN {<<TRUE, TRUE>>, <<TRUE, FALSE>>, <<FALSE, TRUE>>}
+              ELSE IF t \in Openers THEN {<<TRUE, FALSE>>} ELSE IF t \in Closers THEN {<<FALSE, TRUE>>} ELSE {<<FALSE, FALSE>>}
+TokVariants == UNION {{Tok(t, l, a, f[1], f[2]) : l \in (IF LenMatters(t) THEN {1, 2} ELSE {1}), a \in (IF t = Plain THEN {TRUE} ELSE BOOLEAN), f \in FlagsOf(t)} : t \in Types}
 
 \* ---- state of one run ---------------------------------------------------------------------------------------------------
 \* toks: the chain; p: index of the token the walker is at; st: the stack (indices of pushed openers, oldest first);
 \* cnt: opener_count per type; mate: the matching so far (0 = unmatched); conts: the pruned pairs <<opener, closer, pair type>>
 VARIABLES toks, p, st, cnt, mate, conts
 vars == <<toks, p, st, cnt, mate, conts>>
-Types == {TA, Ta, Tb, Tq, TS, Tx}
 ZeroCnt == [t \in Types |-> 0]
 
 \* the closer phase for token j on state s = [st, cnt, mate, conts]; returns the new state
@@ -121,7 +130,7 @@ DeepChains == {RepTok(Tok(o, 1, FALSE, TRUE, FALSE), n) \o tail :
                  tail \in {<<Tok(TA, 1, FALSE, TRUE, FALSE), Tok(Tx, 1, TRUE, FALSE, FALSE), Tok(Ta, 1, FALSE, FALSE, TRUE), Tok(TS, 1, FALSE, FALSE, TRUE)>>,
                            <<Tok(Tq, 2, FALSE, TRUE, FALSE), Tok(Tx, 1, TRUE, FALSE, FALSE), Tok(Tq, 2, FALSE, FALSE, TRUE), Tok(Tb, 1, FALSE, FALSE, TRUE), Tok(Ta, 1, TRUE, FALSE, TRUE)>>,
                            <<Tok(Tb, 1, FALSE, FALSE, TRUE), Tok(TS, 1, FALSE, TRUE, TRUE), Tok(Tx, 1, TRUE, FALSE, FALSE), Tok(TS, 1, FALSE, TRUE, TRUE)>>}}
-InitDeep == /\ toks \in DeepChains /\ p = Len(toks) + 1 /\ st = <<>> /\ cnt = ZeroCnt /\ conts = Run(toks).conts /\ mate = Run(toks).mate
+InitDeep == /\ toks \in DeepChains /\ p = Len(toks) + 1 /\ st = <<>> /\ cnt = ZeroCnt /\ conts = {} /\ mate = <<>>        \* (generator only: the chains are printed, not run)
 EmitDeep == PrintT(ToJson([toks |-> toks]))
 Emit == Done => PrintT(ToJson([toks |-> toks, mate |-> mate, depth |-> [i \in 1 .. Len(toks) |-> Cardinality({c \in conts : c[1] <= i /\ i <= c[2]})]]))
 View == <<toks, p, st, mate, conts>>
